@@ -134,7 +134,7 @@ def dyadic_region(rng, kind=None):
 
 class Check(PropertyCheck):
     id = 'C15'
-    lean_targets = ['RegionsVerif.Props.C15', 'RegionsVerif.Props.C15Box', 'RegionsVerif.Props.C15Mask', 'RegionsVerif.Props.C15Area', 'RegionsVerif.Bridge.FormulasC15']
+    lean_targets = ['RegionsVerif.Props.C15', 'RegionsVerif.Props.C15Box', 'RegionsVerif.Props.C15Mask', 'RegionsVerif.Props.C15Area', 'RegionsVerif.Props.C01Convex', 'RegionsVerif.Bridge.FormulasC15']
     namespaces = ['RegionsVerif.Props.C15', 'RegionsVerif.Bridge.C15']
     rule = ('rotation: all pixel region classes incl. regular polygons, annuli, lines/points/text and compounds to depth 2 x '
             'rotation centres (near, far) x angles of any magnitude/sign/unit x query points scaled to the shape; '
@@ -143,7 +143,7 @@ class Check(PropertyCheck):
     assumptions = ['floating-point rounding of the rotated coordinates (a few ulp of |p|+|centre|) is excepted: numeric parameters are '
                    'compared within 1e-9*(scale), membership only outside a boundary band max(1e-9, 1e-13*(|p|+|o|)/size)',
                    'bounding boxes under translation: sides within 1e-9 of a pixel edge with inexact trigonometry are excepted']
-    validated_only = ['rotation invariance of the even-odd rule for polygons (equivalent to ray-direction independence; not proved): '
+    validated_only = ['rotation invariance of the even-odd rule for NON-convex polygons (equivalent to ray-direction independence; proved for triangles and strictly convex polygons in C01Tri/C01Convex): '
                       'decided by the differential run against the exact crossing oracle on rotated polygons',
                       'mask arrays unchanged under translation are a theorem for the model (C15Mask.mask_shift, center/subpixels); exact mode and the compiled kernels: checked on the real code (exact array equality)']
 
@@ -170,8 +170,11 @@ class Check(PropertyCheck):
                                    lambda: G.gen_simple(rng, kind=rng.choice(G.SIMPLE_KINDS), scale=rng.choice([1.0, 4.0]), center_scale=5))
             cc = G.approx_center(d)
             size = G.approx_size(d)
+            e = rng.choice([1e-7, 3e-6, 8e-6])
             o = rng.choice([[0.0, 0.0], list(cc), [cc[0] + rng.uniform(-3, 3) * size, cc[1] + rng.uniform(-3, 3) * size],
-                            [rng.uniform(-1e3, 1e3), rng.uniform(-1e3, 1e3)]])
+                            [rng.uniform(-1e3, 1e3), rng.uniform(-1e3, 1e3)],
+                            # a pivot that is close to the centre (within any plausible comparison tolerance) but is not the centre
+                            [cc[0] + e * max(abs(cc[0]), 1.0), cc[1] - e * max(abs(cc[1]), 1.0)]])
             ang = G.rangle(rng)
             pts = query_points(rng, d if d['kind'] != 'compound' else d['a'], 14)
             cases.append({'kind': 'rotate', 'region': d, 'o': o, 'angle': ang, 'pts': [list(p) for p in pts]})
